@@ -104,7 +104,9 @@ func (n *Node) CheckNode() *Failure {
 //   - an accepted block (descending from finalized) whose CommitBlock failed;
 //   - a node's finalized checkpoint moving to a block that does not descend from the previous one;
 //   - (safety = the script keeps fewer than a third of the validators Byzantine) two honest nodes holding conflicting
-//     finalized checkpoints at any two moments; without `safety` a proposal on a best block that does not descend
+//     finalized checkpoints at any two moments — evaluated on runs inside the fork-choice premise only (no honest
+//     proposal moves, at equal quality, to a head that does not extend the proposer's last vote: Run.TieSwitches == 0;
+//     see Bft/Safety.v bft_safety_under_premise_statement); without `safety` a proposal on a best block that does not descend
 //     from finalized is not counted as non-monotone either (only imports are: Accepts guards them).
 func (r *Run) CheckRun(sc *Script, safety bool) *Failure {
 	lastFin := map[int]thor.Bytes32{}
@@ -133,7 +135,7 @@ func (r *Run) CheckRun(sc *Script, safety bool) *Failure {
 	}
 	for i := range allFin {
 		for j := i + 1; j < len(allFin); j++ {
-			if safety && finNode[i] != finNode[j] && r.Sim.Conflict(allFin[i], allFin[j]) {
+			if safety && r.TieSwitches == 0 && finNode[i] != finNode[j] && r.Sim.Conflict(allFin[i], allFin[j]) {
 				return &Failure{"conflicting-finalized", fmt.Sprintf("node %d finalized #%d and node %d finalized #%d: neither is on the other's chain",
 					finNode[i], block.Number(allFin[i]), finNode[j], block.Number(allFin[j]))}
 			}
